@@ -84,7 +84,7 @@ def gen_case(rng, kind='valid'):
         n = 0
         for ln in case['lines']:
             for e in ln['els']:
-                if e['k'] == 'F' and e['len'] < sp['max_length'] and e['len'] > 2 and (n == 0 or rng.random() < 0.2):
+                if e['k'] == 'F' and e['len'] < c08.max_km(sp) and e['len'] > 2 and (n == 0 or rng.random() < 0.2):
                     e['lumped'] = [{'position': round(e['len'] * rng.uniform(0.1, 0.9), 3), 'loss': rng.choice([0.5, 1.5])}]
                     n += 1
     if kind == 'att_in':
@@ -109,7 +109,7 @@ def gen_case(rng, kind='valid'):
         ln = case['lines'][0]
         if not any(e['k'] == 'R' for l2 in case['lines'] for e in l2['els']):
             head = [c08.gen_amp(rng, 'amp r0', sp['power_mode'], before_raman=rng.random() < 0.5)] if rng.random() < 0.5 else []
-            ln['els'] = head + [c08.gen_fiber(rng, 'raman r1', sp['max_length'], raman=True)] + [e for e in ln['els'] if e['k'] == 'F'][:1]
+            ln['els'] = head + [c08.gen_fiber(rng, 'raman r1', c08.max_km(sp), raman=True)] + [e for e in ln['els'] if e['k'] == 'F'][:1]
     case['simparams'] = gen_simparams(rng) if rng.random() < 0.5 else None
     if kind == 'raman':
         # the settings in force when a Raman span is designed: never the defaults
@@ -270,22 +270,22 @@ def roundtrip(case, fixes=(), rounds=None, want_obs=False, propagate_pair=None):
 TOL_FIELDS = ('gain_target', 'att_in')
 
 
-def diff_json(a, b, path='', out=None):
+def diff_json(a, b, path='', out=None, gain_tol=1e-5):
     out = [] if out is None else out
     if isinstance(a, dict) and isinstance(b, dict):
         for k in sorted(set(a) | set(b)):
             if k not in a or k not in b:
                 out.append((path + '/' + k, a.get(k, '<missing>'), b.get(k, '<missing>')))
             else:
-                diff_json(a[k], b[k], path + '/' + k, out)
+                diff_json(a[k], b[k], path + '/' + k, out, gain_tol)
     elif isinstance(a, list) and isinstance(b, list):
         if len(a) != len(b):
             out.append((path + '#len', len(a), len(b)))
         for i, (x, y) in enumerate(zip(a, b)):
-            diff_json(x, y, f'{path}[{i}]', out)
+            diff_json(x, y, f'{path}[{i}]', out, gain_tol)
     elif isinstance(a, (int, float)) and isinstance(b, (int, float)) and not isinstance(a, bool) and not isinstance(b, bool):
         leaf = path.rsplit('/', 1)[-1]
-        tol = 1e-5 if leaf in TOL_FIELDS else 1e-9 * max(1.0, abs(a), abs(b))
+        tol = gain_tol if leaf == 'gain_target' else 1e-5 if leaf in TOL_FIELDS else 1e-9 * max(1.0, abs(a), abs(b))
         if abs(a - b) > tol:
             out.append((path, a, b))
     elif a != b:
@@ -293,16 +293,45 @@ def diff_json(a, b, path='', out=None):
     return out
 
 
-def compare_exports(ja, jb):
+def amp_depths(j):
+    """position of every Edfa on its OMS (number of Edfas between it and the ROADM / transceiver upstream)"""
+    typ = {e['uid']: e['type'] for e in j['elements']}
+    pred = {}
+    for c in j['connections']:
+        pred.setdefault(c['to_node'], []).append(c['from_node'])
+    depth = {}
+    for u, t in typ.items():
+        if t != 'Edfa':
+            continue
+        k, cur, seen = 0, u, set()
+        while True:
+            ps = pred.get(cur, [])
+            if len(ps) != 1 or ps[0] in seen:
+                break
+            cur = ps[0]
+            seen.add(cur)
+            if typ.get(cur) in ('Roadm', 'Transceiver'):
+                break
+            if typ.get(cur) in ('Edfa', 'Multiband_amplifier'):
+                k += 1
+        depth[u] = k
+    return depth
+
+
+def compare_exports(ja, jb, gain_mode=False):
     """list of (uid, field path, value a, value b); connections compared as sets"""
     ea = {e['uid']: e for e in ja['elements']}
     eb = {e['uid']: e for e in jb['elements']}
     out = []
     for u in sorted(set(ea) ^ set(eb)):
         out.append((u, '<element>', u in ea, u in eb))
+    # gain_target: 1e-5 in power mode (the gain is recomputed from exact inputs); in gain mode the proved bound of
+    # Props/C17.v C17_gain_mode_export: (k + 4) half-units of the 6th decimal for the k-th amplifier of its OMS
+    depth = amp_depths(ja) if gain_mode else {}
     for u in ea:
         if u in eb:
-            for (p, x, y) in diff_json(ea[u], eb[u]):
+            tol = (depth.get(u, 0) + 4) * 0.5e-6 + 1e-9 if gain_mode and ea[u].get('type') == 'Edfa' else 1e-5
+            for (p, x, y) in diff_json(ea[u], eb[u], gain_tol=tol):
                 out.append((u, p, x, y))
     ca = sorted((c['from_node'], c['to_node']) for c in ja['connections'])
     cb = sorted((c['from_node'], c['to_node']) for c in jb['connections'])
@@ -313,12 +342,12 @@ def compare_exports(ja, jb):
     return out
 
 
-def drift_of(res):
+def drift_of(res, gain_mode=False):
     """differences between consecutive exports of a roundtrip result"""
     d = []
     js = res['json']
     for k in range(len(js) - 1):
-        for item in compare_exports(js[k], js[k + 1]):
+        for item in compare_exports(js[k], js[k + 1], gain_mode):
             d.append((k + 1,) + item)
     for k in range(len(res.get('snr', [])) - 1):
         a, b = res['snr'][k], res['snr'][k + 1]
@@ -336,7 +365,7 @@ def attribute(case, pair):
     for size in (1, 2):
         for sub in itertools.combinations(cands, size):
             r = roundtrip(case, fixes=sub, propagate_pair=pair)
-            if 'exc' not in r and not drift_of(r):
+            if 'exc' not in r and not drift_of(r, not case['span'].get('power_mode', True)):
                 return list(sub)
     return None
 
@@ -635,7 +664,7 @@ def run(ctx):
             if 'exc' in twice or json.dumps(twice['json'][0], sort_keys=True) != json.dumps(res['json'][0], sort_keys=True):
                 ctx.violation('design_twice_differs', 'two designs of the same input give different exports', sc)
         # ---- redesign drift
-        d = drift_of(res)
+        d = drift_of(res, not case['span']['power_mode'])
         amps_total = sum(1 for e in res['json'][0]['elements'] if e['type'] == 'Edfa')
         ob0 = res['obs'][0]
         nontrivial = any(o['gain'] is not None or o['voa'] is not None or o['dp'] is not None for o in ob0['ops'].values()) \
